@@ -379,6 +379,9 @@ func mergeIncluded(result *ResolvedJournal, includePath string, subResult *Resol
 func (l *Loader) expandGlob(basePath, pattern string) ([]string, error) {
 	dir := filepath.Dir(basePath)
 
+	if err := CheckGlobComplexity(pattern); err != nil {
+		return nil, err
+	}
 	pattern = ConvertHledgerGlob(pattern)
 
 	if !filepath.IsAbs(pattern) {
